@@ -2,6 +2,7 @@
    the model's forests, and the refinement of the model's augment loop (Model/Schema.v) to a maximal run. *)
 From Coq Require Import List NArith Bool Permutation Arith Lia.
 From GY Require Import Model.Schema Spec.C07.
+From GY Require Spec.C04.
 Import ListNotations.
 Local Open Scope N_scope.
 
@@ -2609,3 +2610,772 @@ Proof.
   apply (augment_attributed SC s a t c t' Q d fl1 P1 d1 p k c0 rest node Hpc Hst Ht Hrun Hfind Hk Hl); [| exact Hnode].
   apply (pending0_ns_free SC a k c0 Hin Hl).
 Qed.
+
+
+
+(* ================================================================== 9. FixChoice is a function of the view *)
+(* fix_choice, one level *)
+Definition fc_case (c : entry) : entry :=
+  Entry (e_name c) KCase TSUnset TSUnset [] [] None [] None (e_ns c) (Some [(e_name c, c)]) None.
+Definition fc_wrapv (c : entry) : entry := match e_kind c with KCase => c | _ => fc_case c end.
+Definition fc_wrap (e : entry) : entry :=
+  match e_kind e, e_dir e with
+  | KChoice, Some d => set_dir e (Some (map (fun kv => (fst kv, fc_wrapv (snd kv))) d))
+  | _, _ => e
+  end.
+Definition fc_children (f : nat) (e1 : entry) : entry :=
+  match e_dir e1 with
+  | Some d => set_dir e1 (Some (map (fun kv => (fst kv, fix_choice f (snd kv))) d))
+  | None => e1
+  end.
+Definition fc_rpc (f : nat) (e2 : entry) : entry :=
+  match e_rpc e2 with
+  | Some (i, o) => set_rpc e2 (Some (option_map (fix_choice f) i, option_map (fix_choice f) o))
+  | None => e2
+  end.
+
+Lemma fc_wrap1_eq : forall d : list (str * entry),
+  map (fun kv => match e_kind (snd kv) with
+                 | KCase => kv
+                 | _ => (fst kv, Entry (e_name (snd kv)) KCase TSUnset TSUnset [] [] None [] None (e_ns (snd kv))
+                                       (Some [(e_name (snd kv), snd kv)]) None)
+                 end) d =
+  map (fun kv => (fst kv, fc_wrapv (snd kv))) d.
+Proof.
+  intros d. apply map_ext. intros [k v]. unfold fc_wrapv, fc_case. simpl. destruct (e_kind v); reflexivity.
+Qed.
+
+Lemma fix_choice_step : forall f e, fix_choice (S f) e = fc_rpc f (fc_children f (fc_wrap e)).
+Proof.
+  intros f e. unfold fc_rpc, fc_children, fc_wrap. simpl fix_choice.
+  destruct (e_kind e); try reflexivity.
+  destruct (e_dir e) as [d |]; [| reflexivity]. rewrite fc_wrap1_eq. reflexivity.
+Qed.
+
+Lemma lookup_map_val : forall (g : entry -> entry) k (d : list (str * entry)),
+  lookup k (map (fun kv => (fst kv, g (snd kv))) d) = option_map g (lookup k d).
+Proof.
+  intros g k d. induction d as [| [k' v] d IH]; simpl; [reflexivity |].
+  destruct (str_eqb k k'); [reflexivity | exact IH].
+Qed.
+
+Lemma lab_set_dir_some : forall e d d', e_dir e = Some d -> lab (set_dir e (Some d')) = lab e.
+Proof. intros. eapply lab_set_dir; eauto. Qed.
+
+Lemma lab_fc_wrap : forall e, lab (fc_wrap e) = lab e.
+Proof.
+  intros e. unfold fc_wrap. destruct (e_kind e); try reflexivity.
+  destruct (e_dir e) as [d |] eqn:Ed; [| reflexivity]. apply (lab_set_dir e d _ Ed).
+Qed.
+Lemma lab_fc_children : forall f e, lab (fc_children f e) = lab e.
+Proof.
+  intros f e. unfold fc_children. destruct (e_dir e) as [d |] eqn:Ed; [| reflexivity]. apply (lab_set_dir e d _ Ed).
+Qed.
+Lemma lab_fc_rpc : forall f e, lab (fc_rpc f e) = lab e.
+Proof.
+  intros f e. unfold fc_rpc. destruct (e_rpc e) as [[i o] |] eqn:Er; [| reflexivity]. apply (lab_set_rpc e _ _ Er).
+Qed.
+
+Lemma lab_fix_choice : forall n e, lab (fix_choice n e) = lab e.
+Proof.
+  intros n e. destruct n as [| f]; [reflexivity |].
+  rewrite fix_choice_step, lab_fc_rpc, lab_fc_children, lab_fc_wrap. reflexivity.
+Qed.
+
+Lemma e_kind_lab : forall e e', lab e = lab e' -> e_kind e = e_kind e'.
+Proof. intros e e' H. change (l_kind (lab e) = l_kind (lab e')). rewrite H. reflexivity. Qed.
+
+(* the children of a node after one level of fix_choice *)
+Lemma e_dir_fix_step : forall f e,
+  e_dir (fix_choice (S f) e) =
+  match e_dir e with
+  | Some d => Some (map (fun kv => (fst kv, fix_choice f (match e_kind e with KChoice => fc_wrapv (snd kv) | _ => snd kv end))) d)
+  | None => None
+  end.
+Proof.
+  intros f e. rewrite fix_choice_step. unfold fc_rpc.
+  assert (H : e_dir (fc_children f (fc_wrap e)) =
+              match e_dir e with
+              | Some d => Some (map (fun kv => (fst kv, fix_choice f (match e_kind e with KChoice => fc_wrapv (snd kv) | _ => snd kv end))) d)
+              | None => None
+              end).
+  { unfold fc_children, fc_wrap. destruct (e_dir e) as [d |] eqn:Ed.
+    - destruct (e_kind e) eqn:Ek; try (rewrite Ed, e_dir_set_dir; reflexivity).
+      rewrite e_dir_set_dir, e_dir_set_dir, map_map. reflexivity.
+    - destruct (e_kind e); rewrite Ed; exact Ed. }
+  destruct (e_rpc (fc_children f (fc_wrap e))) as [[i o] |]; [rewrite e_dir_set_rpc |]; exact H.
+Qed.
+
+Lemma e_rpc_fix_step : forall f e,
+  e_rpc (fix_choice (S f) e) =
+  match e_rpc e with
+  | Some (i, o) => Some (option_map (fix_choice f) i, option_map (fix_choice f) o)
+  | None => None
+  end.
+Proof.
+  intros f e. rewrite fix_choice_step.
+  assert (H : e_rpc (fc_children f (fc_wrap e)) = e_rpc e).
+  { unfold fc_children, fc_wrap. destruct (e_dir e) as [d |] eqn:Ed.
+    - destruct (e_kind e) eqn:Ek; try (rewrite Ed, e_rpc_set_dir; reflexivity).
+      rewrite e_dir_set_dir, e_rpc_set_dir, e_rpc_set_dir. reflexivity.
+    - destruct (e_kind e); rewrite Ed; reflexivity. }
+  unfold fc_rpc. rewrite H. destruct (e_rpc e) as [[i o] |] eqn:Er; [rewrite e_rpc_set_rpc; reflexivity | exact H].
+Qed.
+
+Lemma lookup_fix_dir : forall f (e : entry) n (d : list (str * entry)),
+  lookup n (map (fun kv => (fst kv, fix_choice f (match e_kind e with KChoice => fc_wrapv (snd kv) | _ => snd kv end))) d) =
+  option_map (fun v => fix_choice f (match e_kind e with KChoice => fc_wrapv v | _ => v end)) (lookup n d).
+Proof.
+  intros f e n d. induction d as [| [k' v] d IH]; simpl; [reflexivity |].
+  destruct (str_eqb n k'); [reflexivity | exact IH].
+Qed.
+
+Lemma fix_choice_empty_io : forall n b, fix_choice n (empty_io b) = empty_io b.
+Proof. intros n b. destruct n; [reflexivity |]. destruct b; reflexivity. Qed.
+
+(* view equality of trees *)
+Definition veq (e e' : entry) : Prop := forall q, option_map lab (vlocate e q) = option_map lab (vlocate e' q).
+
+Lemma veq_refl : forall e, veq e e.
+Proof. intros e q. reflexivity. Qed.
+
+Lemma veq_lab : forall e e', veq e e' -> lab e = lab e'.
+Proof. intros e e' H. specialize (H []). simpl in H. congruence. Qed.
+
+Lemma veq_child : forall e e' k, veq e e' ->
+  match e_dir e, e_dir e' with
+  | Some d, Some d' => match lookup k d, lookup k d' with
+                       | Some c, Some c' => veq c c'
+                       | None, None => True
+                       | _, _ => False
+                       end
+  | None, None => True
+  | _, _ => False
+  end.
+Proof.
+  intros e e' k H. pose proof (veq_lab e e' H) as Hl.
+  assert (Hd : is_some (e_dir e) = is_some (e_dir e')) by (change (l_hasdir (lab e) = l_hasdir (lab e')); rewrite Hl; reflexivity).
+  destruct (e_dir e) as [d |] eqn:Ed; destruct (e_dir e') as [d' |] eqn:Ed'; try discriminate; [| exact I].
+  pose proof (H [SChild k]) as H1. simpl in H1. rewrite Ed, Ed' in H1.
+  destruct (lookup k d) as [c |] eqn:Ec; destruct (lookup k d') as [c' |] eqn:Ec'; try discriminate; [| exact I].
+  intros q. specialize (H (SChild k :: q)). simpl in H. rewrite Ed, Ed', Ec, Ec' in H. exact H.
+Qed.
+
+Lemma veq_io : forall e e', veq e e' ->
+  match e_rpc e, e_rpc e' with
+  | Some (i, o), Some (i', o') => veq (io_or_empty true i) (io_or_empty true i') /\
+                                  veq (io_or_empty false o) (io_or_empty false o')
+  | None, None => True
+  | _, _ => False
+  end.
+Proof.
+  intros e e' H. pose proof (veq_lab e e' H) as Hl.
+  assert (Hd : is_some (e_rpc e) = is_some (e_rpc e')) by (change (l_isrpc (lab e) = l_isrpc (lab e')); rewrite Hl; reflexivity).
+  destruct (e_rpc e) as [[i o] |] eqn:Er; destruct (e_rpc e') as [[i' o'] |] eqn:Er'; try discriminate; [| exact I].
+  split; intros q.
+  - specialize (H (SIn :: q)). simpl in H. rewrite Er, Er' in H. exact H.
+  - specialize (H (SOut :: q)). simpl in H. rewrite Er, Er' in H. exact H.
+Qed.
+
+Lemma veq_fc_case : forall c c', veq c c' -> veq (fc_case c) (fc_case c').
+Proof.
+  intros c c' H. pose proof (veq_lab c c' H) as Hl.
+  assert (Hn : e_name c = e_name c') by (change (l_name (lab c) = l_name (lab c')); rewrite Hl; reflexivity).
+  assert (Hs : e_ns c = e_ns c') by (change (l_ns (lab c) = l_ns (lab c')); rewrite Hl; reflexivity).
+  intros q. destruct q as [| s r]; simpl.
+  - unfold fc_case, lab. simpl. rewrite Hn, Hs. reflexivity.
+  - destruct s; try reflexivity. simpl. rewrite <- Hn.
+    destruct (str_eqb n (e_name c)); [apply H | reflexivity].
+Qed.
+
+Lemma veq_fc_wrapv : forall c c', veq c c' -> veq (fc_wrapv c) (fc_wrapv c').
+Proof.
+  intros c c' H. unfold fc_wrapv. rewrite <- (e_kind_lab c c' (veq_lab c c' H)).
+  destruct (e_kind c); try (apply veq_fc_case; exact H). exact H.
+Qed.
+
+(* the same fuel on trees with equal views gives trees with equal views *)
+Lemma fix_choice_veq : forall n e e', veq e e' -> veq (fix_choice n e) (fix_choice n e').
+Proof.
+  induction n as [| f IH]; intros e e' H; [exact H |].
+  pose proof (veq_lab e e' H) as Hl. pose proof (e_kind_lab e e' Hl) as Hk.
+  intros q. destruct q as [| s r].
+  - cbn [vlocate option_map]. rewrite !lab_fix_choice. rewrite Hl. reflexivity.
+  - destruct s.
+    + cbn [vlocate]. rewrite !e_dir_fix_step. pose proof (veq_child e e' n H) as Hc. rewrite <- Hk.
+      destruct (e_dir e) as [d |]; destruct (e_dir e') as [d' |]; try contradiction; [| reflexivity].
+      rewrite !lookup_fix_dir.
+      destruct (lookup n d) as [c |]; destruct (lookup n d') as [c' |]; try contradiction; [| reflexivity].
+      simpl. apply IH. destruct (e_kind e); try exact Hc. apply veq_fc_wrapv. exact Hc.
+    + cbn [vlocate]. rewrite !e_rpc_fix_step. pose proof (veq_io e e' H) as Hio.
+      destruct (e_rpc e) as [[i o] |]; destruct (e_rpc e') as [[i' o'] |]; try contradiction; [| reflexivity].
+      destruct Hio as [Hi _].
+      replace (io_or_empty true (option_map (fix_choice f) i)) with (fix_choice f (io_or_empty true i))
+        by (destruct i; [reflexivity | apply fix_choice_empty_io]).
+      replace (io_or_empty true (option_map (fix_choice f) i')) with (fix_choice f (io_or_empty true i'))
+        by (destruct i'; [reflexivity | apply fix_choice_empty_io]).
+      apply IH. exact Hi.
+    + cbn [vlocate]. rewrite !e_rpc_fix_step. pose proof (veq_io e e' H) as Hio.
+      destruct (e_rpc e) as [[i o] |]; destruct (e_rpc e') as [[i' o'] |]; try contradiction; [| reflexivity].
+      destruct Hio as [_ Ho].
+      replace (io_or_empty false (option_map (fix_choice f) o)) with (fix_choice f (io_or_empty false o))
+        by (destruct o; [reflexivity | apply fix_choice_empty_io]).
+      replace (io_or_empty false (option_map (fix_choice f) o')) with (fix_choice f (io_or_empty false o'))
+        by (destruct o'; [reflexivity | apply fix_choice_empty_io]).
+      apply IH. exact Ho.
+Qed.
+
+
+
+Lemma veq_sym : forall e e', veq e e' -> veq e' e.
+Proof. intros e e' H q. symmetry. apply H. Qed.
+Lemma veq_trans : forall a b c, veq a b -> veq b c -> veq a c.
+Proof. intros a b c H1 H2 q. rewrite H1. apply H2. Qed.
+
+Lemma e_kind_fix_choice : forall n e, e_kind (fix_choice n e) = e_kind e.
+Proof. intros n e. apply e_kind_lab. apply lab_fix_choice. Qed.
+
+Lemma e_kind_fc_wrapv : forall c, e_kind (fc_wrapv c) = KCase.
+Proof. intros c. unfold fc_wrapv. destruct (e_kind c) eqn:E; try reflexivity. exact E. Qed.
+
+Lemma fc_wrapv_case : forall c, e_kind c = KCase -> fc_wrapv c = c.
+Proof. intros c H. unfold fc_wrapv. rewrite H. reflexivity. Qed.
+
+(* only the child map and the rpc part change *)
+Lemma fix_choice_rebuild : forall f e,
+  fix_choice (S f) e = set_rpc (set_dir e (e_dir (fix_choice (S f) e))) (e_rpc (fix_choice (S f) e)).
+Proof.
+  intros f e. rewrite fix_choice_step. unfold fc_rpc, fc_children, fc_wrap.
+  destruct e as [n k c m df u t ky la ns d r]. simpl.
+  destruct k; destruct d as [d |]; destruct r as [[i o] |]; reflexivity.
+Qed.
+
+Lemma set_dir_rpc_same : forall e, set_rpc (set_dir e (e_dir e)) (e_rpc e) = e.
+Proof. destruct e; reflexivity. Qed.
+
+(* fixing with less fuel what was fixed with more changes nothing *)
+Lemma fix_choice_absorb : forall n K e, (n <= K)%nat -> fix_choice n (fix_choice K e) = fix_choice K e.
+Proof.
+  induction n as [| f IH]; intros K e Hle; [reflexivity |].
+  destruct K as [| K']; [lia |].
+  set (y := fix_choice (S K') e).
+  rewrite fix_choice_rebuild.
+  assert (Hd : e_dir (fix_choice (S f) y) = e_dir y).
+  { rewrite e_dir_fix_step. unfold y at 1 2 3. rewrite e_kind_fix_choice. rewrite e_dir_fix_step.
+    destruct (e_dir e) as [d |]; [| reflexivity]. f_equal. rewrite map_map. apply map_ext. intros [k v]. simpl. f_equal.
+    destruct (e_kind e) eqn:Ek; try (apply IH; lia).
+    rewrite fc_wrapv_case; [apply IH; lia |]. rewrite e_kind_fix_choice. apply e_kind_fc_wrapv. }
+  assert (Hr : e_rpc (fix_choice (S f) y) = e_rpc y).
+  { rewrite e_rpc_fix_step. unfold y. rewrite e_rpc_fix_step.
+    destruct (e_rpc e) as [[i o] |]; [| reflexivity].
+    f_equal. f_equal; [destruct i | destruct o]; simpl; try reflexivity; f_equal; apply IH; lia. }
+  rewrite Hd, Hr. apply set_dir_rpc_same.
+Qed.
+
+(* ------------------------------------------------------------------ height of the view *)
+Definition VH (h : nat) (e : entry) : Prop := forall q x, vlocate e q = Some x -> (length q < h)%nat.
+
+Lemma VH_mono : forall h h' e, VH h e -> (h <= h')%nat -> VH h' e.
+Proof. intros h h' e H Hle q x Hq. specialize (H q x Hq). lia. Qed.
+
+Lemma veq_VH : forall h e e', veq e e' -> VH h e -> VH h e'.
+Proof.
+  intros h e e' Hv H q x Hq. specialize (Hv q). rewrite Hq in Hv. simpl in Hv.
+  destruct (vlocate e q) as [y |] eqn:E; [| discriminate]. apply (H q y E).
+Qed.
+
+Lemma VH_child : forall h e d k c, VH (S h) e -> e_dir e = Some d -> lookup k d = Some c -> VH h c.
+Proof.
+  intros h e d k c H Hd Hl q x Hq. specialize (H (SChild k :: q) x). simpl in H. rewrite Hd, Hl in H.
+  specialize (H Hq). lia.
+Qed.
+
+Lemma VH_in : forall h e i o, VH (S h) e -> e_rpc e = Some (i, o) -> VH h (io_or_empty true i).
+Proof.
+  intros h e i o H Hr q x Hq. specialize (H (SIn :: q) x). simpl in H. rewrite Hr in H. specialize (H Hq). lia.
+Qed.
+Lemma VH_out : forall h e i o, VH (S h) e -> e_rpc e = Some (i, o) -> VH h (io_or_empty false o).
+Proof.
+  intros h e i o H Hr q x Hq. specialize (H (SOut :: q) x). simpl in H. rewrite Hr in H. specialize (H Hq). lia.
+Qed.
+
+Lemma VH_pos : forall h e, VH h e -> (0 < h)%nat.
+Proof. intros h e H. specialize (H [] e eq_refl). simpl in H. exact H. Qed.
+
+Lemma fix_choice_case : forall m c,
+  fix_choice (S m) (fc_case c) = set_dir (fc_case c) (Some [(e_name c, fix_choice m c)]).
+Proof. intros m c. rewrite fix_choice_step. reflexivity. Qed.
+
+(* above twice the height of the view the fuel does not matter (for the view) *)
+Lemma fix_choice_fuel_veq : forall h e n n', VH h e -> (2 * h <= n)%nat -> (2 * h <= n')%nat ->
+  veq (fix_choice n e) (fix_choice n' e).
+Proof.
+  induction h as [| h IH]; intros e n n' Hv Hn Hn'.
+  - apply VH_pos in Hv. lia.
+  - destruct n as [| [| m]]; try lia. destruct n' as [| [| m']]; try lia.
+    intros q. destruct q as [| s r].
+    + cbn [vlocate option_map]. rewrite !lab_fix_choice. reflexivity.
+    + destruct s.
+      * cbn [vlocate]. rewrite !e_dir_fix_step.
+        destruct (e_dir e) as [d |] eqn:Ed; [| reflexivity].
+        rewrite !lookup_fix_dir. destruct (lookup n d) as [c |] eqn:Ec; [| reflexivity]. cbn [option_map].
+        pose proof (VH_child h e d n c Hv Ed Ec) as Hc.
+        assert (Hplain : forall z, VH h z -> option_map lab (vlocate (fix_choice (S m) z) r) =
+                                             option_map lab (vlocate (fix_choice (S m') z) r)).
+        { intros z Hz. apply (IH z (S m) (S m') Hz); lia. }
+        destruct (e_kind e); try (apply Hplain; exact Hc).
+        assert (Hw : fc_wrapv c = c \/ fc_wrapv c = fc_case c).
+        { unfold fc_wrapv. destruct (e_kind c); auto. }
+        destruct Hw as [Hw | Hw]; rewrite Hw; [apply Hplain; exact Hc |].
+        rewrite !fix_choice_case.
+        destruct r as [| s2 r2]; [reflexivity |].
+        destruct s2; try reflexivity.
+        cbn [vlocate]. rewrite !e_dir_set_dir. simpl lookup.
+        destruct (str_eqb n0 (e_name c)); [| reflexivity].
+        apply (IH c m m' Hc); lia.
+      * cbn [vlocate]. rewrite !e_rpc_fix_step.
+        destruct (e_rpc e) as [[i o] |] eqn:Er; [| reflexivity].
+        replace (io_or_empty true (option_map (fix_choice (S m)) i)) with (fix_choice (S m) (io_or_empty true i))
+          by (destruct i; [reflexivity | apply fix_choice_empty_io]).
+        replace (io_or_empty true (option_map (fix_choice (S m')) i)) with (fix_choice (S m') (io_or_empty true i))
+          by (destruct i; [reflexivity | apply fix_choice_empty_io]).
+        apply (IH _ (S m) (S m') (VH_in h e i o Hv Er)); lia.
+      * cbn [vlocate]. rewrite !e_rpc_fix_step.
+        destruct (e_rpc e) as [[i o] |] eqn:Er; [| reflexivity].
+        replace (io_or_empty false (option_map (fix_choice (S m)) o)) with (fix_choice (S m) (io_or_empty false o))
+          by (destruct o; [reflexivity | apply fix_choice_empty_io]).
+        replace (io_or_empty false (option_map (fix_choice (S m')) o)) with (fix_choice (S m') (io_or_empty false o))
+          by (destruct o; [reflexivity | apply fix_choice_empty_io]).
+        apply (IH _ (S m) (S m') (VH_out h e i o Hv Er)); lia.
+Qed.
+
+(* ------------------------------------------------------------------ the measured depth *)
+Lemma fold_max_le : forall (l : list nat) b, (forall v, In v l -> (v <= b)%nat) -> (fold_right Nat.max 0%nat l <= b)%nat.
+Proof.
+  induction l as [| a l IH]; intros b H; simpl; [lia |].
+  pose proof (H a (or_introl eq_refl)). pose proof (IH b (fun v Hv => H v (or_intror Hv))). lia.
+Qed.
+
+Lemma fold_max_in : forall (l : list nat) v, In v l -> (v <= fold_right Nat.max 0%nat l)%nat.
+Proof.
+  induction l as [| a l IH]; intros v Hv; [destruct Hv |]. simpl.
+  destruct Hv as [-> | Hv]; [lia |]. specialize (IH v Hv). lia.
+Qed.
+
+Definition depth_list (f : nat) (e : entry) : list nat :=
+  match e_dir e with Some d => map (fun kv => depth f (snd kv)) d | None => [] end ++
+  match e_rpc e with
+  | Some (i, o) => (match i with Some x => [depth f x] | None => [] end) ++
+                   (match o with Some x => [depth f x] | None => [] end)
+  | None => []
+  end.
+
+Lemma depth_S : forall f e, depth (S f) e = S (fold_right Nat.max 0%nat (depth_list f e)).
+Proof. reflexivity. Qed.
+
+Lemma depth_le : forall f e, (depth f e <= f)%nat.
+Proof.
+  induction f as [| f IH]; intros e; [simpl; lia |]. rewrite depth_S.
+  apply le_n_S. apply fold_max_le. intros v Hv. unfold depth_list in Hv.
+  apply in_app_or in Hv. destruct Hv as [Hv | Hv].
+  - destruct (e_dir e) as [d |]; [| destruct Hv]. apply in_map_iff in Hv. destruct Hv as [kv [E _]]. subst v. apply IH.
+  - destruct (e_rpc e) as [[i o] |]; [| destruct Hv]. apply in_app_or in Hv.
+    destruct Hv as [Hv | Hv]; [destruct i | destruct o]; try destruct Hv as [E | []]; try (destruct Hv; fail); subst v; apply IH.
+Qed.
+
+Lemma lookup_In_pair : forall {A} k (l : list (str * A)) v, lookup k l = Some v -> exists k', In (k', v) l.
+Proof.
+  intros A k l. induction l as [| [k' v'] l IH]; simpl; intros v H; [discriminate |].
+  destruct (str_eqb k k').
+  - inversion H; subst. exists k'. left. reflexivity.
+  - destruct (IH v H) as [k2 Hin]. exists k2. right. exact Hin.
+Qed.
+
+(* a measurement that was not cut off bounds the height of the view *)
+Lemma depth_VH : forall f e, (depth f e < f)%nat -> VH (S (depth f e)) e.
+Proof.
+  induction f as [| f IH]; intros e Hlt; [simpl in Hlt; lia |].
+  rewrite depth_S in *. set (M := fold_right Nat.max 0%nat (depth_list f e)) in *.
+  assert (HM : (M < f)%nat) by lia.
+  assert (Hsub : forall z, In (depth f z) (depth_list f e) -> VH (S M) z).
+  { intros z Hin. pose proof (fold_max_in _ _ Hin) as Hle. fold M in Hle.
+    apply (VH_mono (S (depth f z))); [apply IH; lia | lia]. }
+  intros q x Hq. destruct q as [| s r]; [simpl; lia |].
+  destruct s; simpl in Hq.
+  - destruct (e_dir e) as [d |] eqn:Ed; [| discriminate].
+    destruct (lookup n d) as [c |] eqn:Ec; [| discriminate].
+    destruct (lookup_In_pair n d c Ec) as [k' Hin].
+    assert (Hc : VH (S M) c).
+    { apply Hsub. unfold depth_list. rewrite Ed. apply in_or_app. left.
+      apply in_map_iff. exists (k', c). split; [reflexivity | exact Hin]. }
+    specialize (Hc r x Hq). simpl. lia.
+  - destruct (e_rpc e) as [[i o] |] eqn:Er; [| discriminate].
+    destruct i as [xi |]; simpl in Hq.
+    + assert (Hc : VH (S M) xi).
+      { apply Hsub. unfold depth_list. rewrite Er. apply in_or_app. right. apply in_or_app. left. left. reflexivity. }
+      specialize (Hc r x Hq). simpl. lia.
+    + destruct r as [| s' r']; [simpl; lia |]. rewrite vlocate_empty_io in Hq. discriminate.
+  - destruct (e_rpc e) as [[i o] |] eqn:Er; [| discriminate].
+    destruct o as [xo |]; simpl in Hq.
+    + assert (Hc : VH (S M) xo).
+      { apply Hsub. unfold depth_list. rewrite Er. apply in_or_app. right. apply in_or_app. right. left. reflexivity. }
+      specialize (Hc r x Hq). simpl. lia.
+    + destruct r as [| s' r']; [simpl; lia |]. rewrite vlocate_empty_io in Hq. discriminate.
+Qed.
+
+
+
+(* ------------------------------------------------------------------ fix_all *)
+Section FixAll.
+Variable SC : schema.
+
+Definition mdepth (F : forest) : nat := fold_right Nat.max 0%nat (map (fun kv => depth (entry_fuel SC) (snd kv)) F).
+Definition fix_fuel (F : forest) : nat := (2 * S (S (mdepth F)))%nat.
+
+Lemma fix_all_eq : forall F, fix_all SC F = map (fun kv => (fst kv, fix_choice (fix_fuel F) (snd kv))) F.
+Proof. reflexivity. Qed.
+
+Lemma lookup_fix_all : forall F mn, lookup mn (fix_all SC F) = option_map (fix_choice (fix_fuel F)) (lookup mn F).
+Proof. intros F mn. rewrite fix_all_eq. apply lookup_map_val. Qed.
+
+Lemma mdepth_le : forall F, (mdepth F <= entry_fuel SC)%nat.
+Proof.
+  intros F. unfold mdepth. apply fold_max_le. intros v Hv. apply in_map_iff in Hv.
+  destruct Hv as [kv [E _]]. subst v. apply depth_le.
+Qed.
+
+Lemma mdepth_ge : forall F mn x, lookup mn F = Some x -> (depth (entry_fuel SC) x <= mdepth F)%nat.
+Proof.
+  intros F mn x Hl. destruct (lookup_In_pair mn F x Hl) as [k' Hin]. unfold mdepth.
+  apply fold_max_in. apply in_map_iff. exists (k', x). split; [reflexivity | exact Hin].
+Qed.
+
+(* when the measurement is below its cut-off, the fuel exceeds twice the height of every tree's view *)
+Lemma fix_fuel_enough : forall F mn x, (mdepth F < entry_fuel SC)%nat -> lookup mn F = Some x -> VH (S (mdepth F)) x.
+Proof.
+  intros F mn x Hlt Hl. pose proof (mdepth_ge F mn x Hl) as Hge.
+  apply (VH_mono (S (depth (entry_fuel SC) x))); [apply depth_VH; lia | lia].
+Qed.
+
+Lemma forest_eqv_trees : forall F F' mn, forest_eqv F F' ->
+  match lookup mn F, lookup mn F' with
+  | Some x, Some x' => veq x x'
+  | None, None => True
+  | _, _ => False
+  end.
+Proof.
+  intros F F' mn H. pose proof (H (mn, [])) as H0. unfold flat_of in H0. simpl in H0.
+  destruct (lookup mn F) as [x |] eqn:E; destruct (lookup mn F') as [x' |] eqn:E'; try discriminate; [| exact I].
+  intros q. specialize (H (mn, q)). unfold flat_of in H. simpl in H. rewrite E, E' in H. exact H.
+Qed.
+
+(* (1) FixChoice on all trees is a function of the view *)
+Theorem fix_all_respects_eqv : fix_all_compat SC.
+Proof.
+  intros F F' H [mn q]. unfold flat_of. cbn [fst snd]. rewrite !lookup_fix_all.
+  pose proof (forest_eqv_trees F F' mn H) as Ht.
+  destruct (lookup mn F) as [x |] eqn:E; destruct (lookup mn F') as [x' |] eqn:E'; try contradiction; [| reflexivity].
+  cbn [option_map].
+  pose proof (mdepth_le F) as L. pose proof (mdepth_le F') as L'.
+  destruct (Nat.lt_trichotomy (mdepth F) (mdepth F')) as [Hlt | [Heq | Hgt]].
+  - (* F measured lower: its fuel is enough for x, and so is the larger one *)
+    assert (Hcut : (mdepth F < entry_fuel SC)%nat) by lia.
+    pose proof (fix_fuel_enough F mn x Hcut E) as Hv.
+    assert (P1 : (2 * S (mdepth F) <= fix_fuel F)%nat) by (unfold fix_fuel; lia).
+    assert (P2 : (2 * S (mdepth F) <= fix_fuel F')%nat) by (unfold fix_fuel; lia).
+    rewrite (fix_choice_fuel_veq (S (mdepth F)) x (fix_fuel F) (fix_fuel F') Hv P1 P2 q).
+    apply (fix_choice_veq (fix_fuel F') x x' Ht q).
+  - unfold fix_fuel. rewrite Heq. apply (fix_choice_veq _ x x' Ht q).
+  - assert (Hcut : (mdepth F' < entry_fuel SC)%nat) by lia.
+    pose proof (fix_fuel_enough F' mn x' Hcut E') as Hv.
+    assert (P1 : (2 * S (mdepth F') <= fix_fuel F)%nat) by (unfold fix_fuel; lia).
+    assert (P2 : (2 * S (mdepth F') <= fix_fuel F')%nat) by (unfold fix_fuel; lia).
+    rewrite <- (fix_choice_fuel_veq (S (mdepth F')) x' (fix_fuel F) (fix_fuel F') Hv P1 P2 q).
+    apply (fix_choice_veq (fix_fuel F) x x' Ht q).
+Qed.
+
+(* FixChoice twice is FixChoice once (for the view) *)
+Theorem fix_all_idem : forall X, forest_eqv (fix_all SC (fix_all SC X)) (fix_all SC X).
+Proof.
+  intros X [mn q]. unfold flat_of. cbn [fst snd]. rewrite !lookup_fix_all.
+  destruct (lookup mn X) as [x |] eqn:E; [| reflexivity]. cbn [option_map].
+  set (Y := fix_all SC X). set (NX := fix_fuel X). set (NY := fix_fuel Y).
+  set (y := fix_choice NX x).
+  assert (Ey : lookup mn Y = Some y) by (unfold Y; rewrite lookup_fix_all, E; reflexivity).
+  change (option_map lab (vlocate (fix_choice NY y) q) = option_map lab (vlocate y q)).
+  pose proof (mdepth_le X) as LX. pose proof (mdepth_le Y) as LY.
+  destruct (Nat.eq_dec (mdepth X) (entry_fuel SC)) as [HX | HX].
+  - destruct (Nat.eq_dec (mdepth Y) (entry_fuel SC)) as [HY | HY].
+    + (* the same fuel *)
+      assert (NY = NX) by (unfold NY, NX, fix_fuel; rewrite HX, HY; reflexivity).
+      rewrite H. unfold y. rewrite fix_choice_absorb by lia. reflexivity.
+    + (* Y measured below the cut-off: both fuels are enough for y *)
+      assert (Hcut : (mdepth Y < entry_fuel SC)%nat) by lia.
+      pose proof (fix_fuel_enough Y mn y Hcut Ey) as Hv.
+      assert (P1 : (2 * S (mdepth Y) <= NY)%nat) by (unfold NY, fix_fuel; lia).
+      assert (P2 : (2 * S (mdepth Y) <= NX)%nat) by (unfold NX, fix_fuel; lia).
+      rewrite (fix_choice_fuel_veq (S (mdepth Y)) y NY NX Hv P1 P2 q).
+      unfold y. rewrite fix_choice_absorb by lia. reflexivity.
+  - (* X measured below the cut-off: its fuel was enough for x *)
+    assert (Hcut : (mdepth X < entry_fuel SC)%nat) by lia.
+    pose proof (fix_fuel_enough X mn x Hcut E) as Hv.
+    set (K := Nat.max NX NY).
+    assert (P1 : (2 * S (mdepth X) <= NX)%nat) by (unfold NX, fix_fuel; lia).
+    assert (P2 : (2 * S (mdepth X) <= K)%nat) by (unfold K; lia).
+    assert (Hyk : veq y (fix_choice K x)) by (apply (fix_choice_fuel_veq (S (mdepth X)) x NX K Hv P1 P2)).
+    rewrite (fix_choice_veq NY y (fix_choice K x) Hyk q).
+    rewrite fix_choice_absorb by (unfold K; lia).
+    symmetry. apply Hyk.
+Qed.
+
+End FixAll.
+
+
+
+(* ================================================================== 10. the rounds reach their fixpoint *)
+Section RoundsFinal.
+Variable SC : schema.
+
+Lemma vmaximal_eqv : forall s s' P P', feq s s' -> Permutation P P' -> vmaximal SC s P -> vmaximal SC s' P'.
+Proof.
+  intros s s' P P' He Hp Hm. unfold vmaximal in *.
+  eapply (maximal_eqv feq (astep SC) (astep_compat_none SC)); eauto.
+Qed.
+
+Lemma vrun_n_maximal_zero : forall n s P d s' P' d', vrun_n SC n s P d s' P' d' -> vmaximal SC s P -> n = O.
+Proof.
+  intros n s P d s' P' d' H Hm. inversion H as [| n0 ? ? ? a t c t' Q ? ? ? Hst He Hp Hr]; subst; [reflexivity |].
+  exfalso. assert (Ha : astep SC s a = None).
+  { apply Hm. eapply Permutation_in; [apply Permutation_sym; exact Hp | left; reflexivity]. }
+  rewrite Ha in Hst. discriminate.
+Qed.
+
+(* (2) the rounds never run out of fuel before reaching the state in which no pending augment is applicable *)
+Lemma rounds_final : forall fuel round F err P mods F2 err2 P2 mods2,
+  rounds SC fuel round F err P mods = (F2, err2, P2, mods2) ->
+  NoDup (map fst P) -> covers P mods -> (length (all_pending P) <= n_aug SC)%nat ->
+  (length (all_pending P) + (match round with O => 1 | _ => 0 end) < fuel)%nat ->
+  (round <> O -> forest_eqv (fix_all SC F) F) ->
+  vmaximal SC (flat_of F2) (all_pending P2).
+Proof.
+  induction fuel as [| f IH]; intros round F err P mods F2 err2 P2 mods2 H Hnd Hcov Hlen Hfuel Hfix; [lia |].
+  rewrite rounds_S in H.
+  destruct (augment_loop SC (S (n_aug SC)) F err P mods 0) as [[[[Fa ea] Pa] ma] na] eqn:L1.
+  destruct (augment_loop_spec SC _ _ _ _ _ _ _ _ _ _ _ L1) as [x [n [R [_ [A [K [C [M T]]]]]]]];
+    [lia | exact Hnd | exact Hcov |].
+  pose proof (vrun_n_length SC _ _ _ _ _ _ _ (R false)) as Ll.
+  assert (Hnda : NoDup (map fst Pa)) by (rewrite K; exact Hnd).
+  assert (Hrec : rounds SC f (S round) (fix_all SC Fa) ea Pa ma = (F2, err2, P2, mods2) ->
+                 (length (all_pending Pa) < f)%nat -> vmaximal SC (flat_of F2) (all_pending P2)).
+  { intros Hr Hm. apply (IH _ _ _ _ _ _ _ _ _ Hr Hnda C); [lia | simpl; lia |].
+    intros _. apply fix_all_idem. }
+  destruct ma as [| m0 ms] eqn:Em.
+  - inversion H; subst. rewrite (covers_nil P2 Hnda C). intros a [].
+  - rewrite <- Em in *. clear Em m0 ms.
+    destruct round as [| r].
+    + assert (H' : rounds SC f 1 (fix_all SC Fa) ea Pa ma = (F2, err2, P2, mods2)).
+      { destruct ma; [| exact H]. destruct na; exact H. }
+      apply Hrec; [exact H' | simpl in Hfuel; lia].
+    + destruct na as [| na'].
+      * assert (H' : (fix_all SC Fa, ea, Pa, ma) = (F2, err2, P2, mods2)) by (destruct ma; exact H).
+        inversion H'; subst. assert (n = O) by lia. subst n.
+        destruct (vrun_n_zero SC _ _ _ _ _ _ (R false)) as [He [Hp _]].
+        (* nothing was applied: Fa has the view of F, which FixChoice leaves alone *)
+        assert (E1 : forest_eqv (fix_all SC Fa) (fix_all SC F)).
+        { apply fix_all_respects_eqv. apply feq_sym. exact He. }
+        assert (E2 : feq (flat_of Fa) (flat_of (fix_all SC Fa))).
+        { apply feq_sym. eapply feq_trans; [exact E1 |]. eapply feq_trans; [apply Hfix; discriminate | exact He]. }
+        apply (vmaximal_eqv _ _ _ _ E2 (Permutation_refl _) M).
+      * assert (H' : rounds SC f (S (S r)) (fix_all SC Fa) ea Pa ma = (F2, err2, P2, mods2)) by (destruct ma; exact H).
+        apply Hrec; [exact H' | simpl in Hfuel; lia].
+Qed.
+
+(* one turn of Entry.Augment when nothing pending is applicable: nothing is applied, only paths are looked up *)
+Lemma augment_module_stuck : forall F err (P : pendings) mn b F' err' n un,
+  augment_module SC F err (pend_of P mn) b = (F', err', n, un) ->
+  vmaximal SC (flat_of F) (all_pending P) ->
+  n = O /\ feq (flat_of F') (flat_of F) /\ Permutation (all_pending (update mn un P)) (all_pending P).
+Proof.
+  intros F err P mn b F' err' n un H Hm.
+  destruct (augment_module_spec SC _ _ _ _ _ _ _ _ H) as [x [Hrun _]].
+  assert (Hsub : vmaximal SC (flat_of F) (pend_of P mn)).
+  { intros a Ha. apply Hm. unfold pend_of in Ha. destruct (lookup mn P) as [pend |] eqn:El; [| destruct Ha].
+    eapply lookup_incl_all_pending; eauto. }
+  pose proof (vrun_n_maximal_zero _ _ _ _ _ _ _ (Hrun false) Hsub) as Hn. subst n.
+  destruct (vrun_n_zero SC _ _ _ _ _ _ (Hrun false)) as [Hf [Hp _]].
+  split; [reflexivity |]. split; [apply feq_sym; exact Hf |].
+  unfold pend_of in Hp. destruct (lookup mn P) as [pend |] eqn:El.
+  - destruct (all_pending_update P mn pend El) as [R0 [H1 H2]].
+    eapply perm_trans; [apply H2 |]. eapply perm_trans; [| apply Permutation_sym; exact H1].
+    apply Permutation_app_tail. apply Permutation_sym. exact Hp.
+  - apply Permutation_nil in Hp. subst un. rewrite (update_absent mn [] P El). apply Permutation_refl.
+Qed.
+
+Lemma final_pass_stuck : forall mods F err (P : pendings) F3 e3 P3,
+  final_pass SC (F, err, P) mods = (F3, e3, P3) -> vmaximal SC (flat_of F) (all_pending P) ->
+  feq (flat_of F3) (flat_of F) /\ Permutation (all_pending P3) (all_pending P).
+Proof.
+  unfold final_pass. induction mods as [| mn rest IH]; intros F err P F3 e3 P3 H Hm.
+  - simpl in H. inversion H; subst. split; [apply feq_refl | apply Permutation_refl].
+  - simpl in H. fold (pend_of P mn) in H.
+    destruct (augment_module SC F err (pend_of P mn) true) as [[[F' err'] n] un] eqn:Ea.
+    destruct (augment_module_stuck _ _ _ _ _ _ _ _ _ Ea Hm) as [_ [Hf Hp]].
+    destruct (IH _ _ _ _ _ _ H) as [I1 I2].
+    { apply (vmaximal_eqv _ _ _ _ (feq_sym _ _ Hf) (Permutation_sym Hp) Hm). }
+    split; [eapply feq_trans; eauto | eapply perm_trans; eauto].
+Qed.
+
+End RoundsFinal.
+
+(* ------------------------------------------------------------------ (4) in the vocabulary of Spec/C04.v *)
+Lemma c04_rounds_eq : forall SC fuel round F err P mods,
+  C04.rounds SC (n_aug SC) fuel round F err P mods = rounds SC fuel round F err P mods.
+Proof.
+  intros SC. induction fuel as [| f IH]; intros round F err P mods; [reflexivity |].
+  rewrite rounds_S. cbn [C04.rounds].
+  destruct (augment_loop SC (S (n_aug SC)) F err P mods 0) as [[[[Fa ea] Pa] ma] na].
+  destruct ma as [| m0 ms]; [reflexivity |].
+  destruct round as [| r]; [apply IH |]. destruct na; [reflexivity | apply IH].
+Qed.
+
+Lemma c04_stage_rounds_eq : forall SC ic order, C04.stage_rounds SC ic order = augment_stage SC ic order.
+Proof. intros. unfold C04.stage_rounds, augment_stage. apply c04_rounds_eq. Qed.
+
+Lemma final_cnt_stuck : forall SC mods F err (P : pendings) c,
+  vmaximal SC (flat_of F) (all_pending P) ->
+  snd (fold_left (C04.final_step_cnt SC) mods ((F, err, P), c)) = c.
+Proof.
+  intros SC. induction mods as [| mn rest IH]; intros F err P c Hm; [reflexivity |].
+  simpl fold_left. unfold C04.final_step_cnt at 2. cbn [fst snd]. fold (pend_of P mn).
+  destruct (augment_module SC F err (pend_of P mn) true) as [[[F' err'] n] un] eqn:Ea.
+  destruct (augment_module_stuck SC _ _ _ _ _ _ _ _ _ Ea Hm) as [Hn [Hf Hp]]. subst n.
+  rewrite IH; [lia |].
+  apply (vmaximal_eqv SC _ _ _ _ (feq_sym _ _ Hf) (Permutation_sym Hp) Hm).
+Qed.
+
+(* after the rounds, the reporting pass (Augment(true) over the modules left) applies no augment *)
+Theorem final_pass_applies_nothing : forall SC ic order,
+  NoDup (map m_name SC) -> covers (pend0 SC) order -> C04.final_applied SC ic order = O.
+Proof.
+  intros SC ic order Hnd Hcov. unfold C04.final_applied, C04.stage_F2, C04.stage_err1, C04.stage_P1, C04.stage_mods1.
+  rewrite c04_stage_rounds_eq.
+  destruct (augment_stage SC ic order) as [[[F2 e1] P1] m1] eqn:Es. cbn [fst snd].
+  apply final_cnt_stuck. unfold augment_stage in Es.
+  apply (rounds_final SC _ _ _ _ _ _ _ _ _ _ Es).
+  - rewrite pend0_keys. exact Hnd.
+  - exact Hcov.
+  - rewrite n_aug_pending. lia.
+  - rewrite n_aug_pending. lia.
+  - intros H. contradiction.
+Qed.
+
+Corollary final_pass_applies_nothing_perm : forall SC ic order,
+  NoDup (map m_name SC) -> Permutation (map m_name SC) order -> C04.final_applied SC ic order = O.
+Proof.
+  intros SC ic order Hnd Hp. apply final_pass_applies_nothing; [exact Hnd |].
+  apply covers_all. intros m Hm. eapply Permutation_in; [exact Hp | apply in_map; exact Hm].
+Qed.
+
+
+
+(* ================================================================== 11. order independence of Process (T2, full) *)
+Section ProcessOrderFull.
+Variable SC : schema.
+Variable ic ins : bool.
+
+(* the rounds {retry loop; FixChoice}, from equivalent states, in two visiting orders *)
+Theorem rounds_order_independent :
+  forall fuel round F F' P P' o1 o2 F2 P2 m2 F2' e2' P2' m2',
+  forest_eqv F F' -> Permutation (all_pending P) (all_pending P') ->
+  NoDup (map fst P) -> NoDup (map fst P') -> covers P o1 -> covers P' o2 ->
+  (length (all_pending P) <= n_aug SC)%nat ->
+  rounds SC fuel round F false P o1 = (F2, false, P2, m2) ->
+  rounds SC fuel round F' false P' o2 = (F2', e2', P2', m2') ->
+  e2' = false /\ forest_eqv F2 F2' /\ Permutation (all_pending P2) (all_pending P2').
+Proof. exact (rounds_confluent SC (fix_all_respects_eqv SC)). Qed.
+
+Lemma Process_ok_sources : forall order F, Process SC ic ins order = ROk F -> sources_ok SC ic = true.
+Proof.
+  intros order F H. rewrite Process_stages in H. unfold Process_staged in H.
+  destruct (sources_ok SC ic); [reflexivity | discriminate].
+Qed.
+
+(* a clean result: the rounds themselves applied every augment *)
+Lemma process_ok_rounds_done : forall order F, Process SC ic ins order = ROk F ->
+  NoDup (map m_name SC) -> covers (pend0 SC) order ->
+  exists F2 P1 m1, augment_stage SC ic order = (F2, false, P1, m1) /\ all_pending P1 = [].
+Proof.
+  intros order F H Hnd Hcov.
+  destruct (process_ok_inv SC ic ins order F H Hnd Hcov) as [F2 [P1 [m1 [F3 [P3 [Es [Ef Hemp]]]]]]].
+  exists F2, P1, m1. split; [exact Es |].
+  assert (Hm : vmaximal SC (flat_of F2) (all_pending P1)).
+  { unfold augment_stage in Es. apply (rounds_final SC _ _ _ _ _ _ _ _ _ _ Es).
+    - rewrite pend0_keys. exact Hnd.
+    - exact Hcov.
+    - rewrite n_aug_pending. lia.
+    - rewrite n_aug_pending. lia.
+    - intros X. contradiction. }
+  destruct (final_pass_stuck SC _ _ _ _ _ _ _ Ef Hm) as [_ Hp].
+  rewrite Hemp in Hp. apply Permutation_nil in Hp. exact Hp.
+Qed.
+
+Lemma process_ok_transfer : no_deviations SC -> NoDup (map m_name SC) ->
+  forall o1 o2, covers (pend0 SC) o1 -> covers (pend0 SC) o2 ->
+  forall F1, Process SC ic ins o1 = ROk F1 ->
+  exists F2, Process SC ic ins o2 = ROk F2 /\ forest_eqv F1 F2.
+Proof.
+  intros Hnodev Hnd o1 o2 Hc1 Hc2 F1 H1.
+  pose proof (Process_ok_sources o1 F1 H1) as Hok.
+  destruct (process_ok_rounds_done o1 F1 H1 Hnd Hc1) as [F2s [P1 [m1 [Hs1 Hemp1]]]].
+  assert (Hndp : NoDup (map fst (pend0 SC))) by (rewrite pend0_keys; exact Hnd).
+  assert (Hlen : (length (all_pending (pend0 SC)) <= n_aug SC)%nat) by (rewrite n_aug_pending; lia).
+  (* Process o1 returns the forest of the rounds *)
+  assert (E1 : Process SC ic ins o1 = ROk F2s).
+  { rewrite Process_stages. unfold Process_staged. rewrite Hok, Hs1. cbv beta iota. unfold process_tail.
+    destruct (final_pass_nopending SC m1 F2s false P1 (all_pending_nil_lookup P1 Hemp1)) as [P' Hfp].
+    rewrite Hfp. rewrite (deviation_stage_nodev SC ins Hnodev). reflexivity. }
+  rewrite H1 in E1. inversion E1; subst F2s. clear E1.
+  unfold augment_stage in Hs1.
+  destruct (rounds SC (S (S (n_aug SC))) 0 (forest0 SC ic) false (pend0 SC) o2) as [[[F2' e2'] P1'] m1'] eqn:Hs2.
+  destruct (rounds_order_independent _ _ _ _ _ _ _ _ _ _ _ _ _ _ _
+              (fun p => eq_refl) (Permutation_refl _) Hndp Hndp Hc1 Hc2 Hlen Hs1 Hs2) as [He2 [Hfe Hp]].
+  subst e2'. rewrite Hemp1 in Hp. apply Permutation_nil in Hp.
+  exists F2'. split; [| exact Hfe].
+  rewrite Process_stages. unfold Process_staged, augment_stage. rewrite Hok, Hs2. cbv beta iota. unfold process_tail.
+  destruct (final_pass_nopending SC m1' F2' false P1' (all_pending_nil_lookup P1' Hp)) as [P' Hfp].
+  rewrite Hfp. rewrite (deviation_stage_nodev SC ins Hnodev). reflexivity.
+Qed.
+
+(* T2 for Process: for schemas without deviations, two visiting orders that contain every module with
+   augments either both report an error or return equivalent forests *)
+Theorem process_order_independent_full : no_deviations SC -> NoDup (map m_name SC) ->
+  forall o1 o2, covers (pend0 SC) o1 -> covers (pend0 SC) o2 ->
+  match Process SC ic ins o1, Process SC ic ins o2 with
+  | ROk F1, ROk F2 => forest_eqv F1 F2
+  | RErr, RErr => True
+  | _, _ => False
+  end.
+Proof.
+  intros Hnodev Hnd o1 o2 Hc1 Hc2.
+  destruct (Process SC ic ins o1) as [| F1] eqn:E1; destruct (Process SC ic ins o2) as [| F2] eqn:E2.
+  - exact I.
+  - destruct (process_ok_transfer Hnodev Hnd o2 o1 Hc2 Hc1 F2 E2) as [F1 [H _]]. congruence.
+  - destruct (process_ok_transfer Hnodev Hnd o1 o2 Hc1 Hc2 F1 E1) as [F2 [H _]]. congruence.
+  - destruct (process_ok_transfer Hnodev Hnd o1 o2 Hc1 Hc2 F1 E1) as [F2' [H Hf]].
+    rewrite E2 in H. inversion H; subst. exact Hf.
+Qed.
+
+(* the same for orders that are permutations of the module names *)
+Corollary process_order_independent_perm : no_deviations SC -> NoDup (map m_name SC) ->
+  forall o1 o2, Permutation (map m_name SC) o1 -> Permutation (map m_name SC) o2 ->
+  match Process SC ic ins o1, Process SC ic ins o2 with
+  | ROk F1, ROk F2 => forest_eqv F1 F2
+  | RErr, RErr => True
+  | _, _ => False
+  end.
+Proof.
+  intros Hnodev Hnd o1 o2 Hp1 Hp2. apply process_order_independent_full; try assumption;
+    apply covers_all; intros m Hm; (eapply Permutation_in; [eassumption | apply in_map; exact Hm]).
+Qed.
+
+End ProcessOrderFull.
